@@ -84,6 +84,21 @@ def run(ctx):
                    "decode_message(encode_message(seq, records)) is not (seq mod 8, records, checksum)", "roundtrip/not-inverse")
         if codecio.ok_or_err(codec.decode, msg, enc) != (True, exp):
             s.fail(dict(case, message=hexb(msg)), "codec.decode does not return the records", "roundtrip/decode")
+        if ok2 and r.random() < 0.3:
+            # a caller changes the lists it was given in place; decoding the same bytes again returns the records again
+            for rec_ in back[1]:
+                for f_ in rec_:
+                    if isinstance(f_, list):
+                        for x_ in f_:
+                            if isinstance(x_, list):
+                                x_.append("changed")
+                        f_.append("changed")
+                rec_.append("changed")
+            again = codecio.ok_or_err(codec.decode_message, msg, enc)
+            if again[0] is not True or again[1][1] != exp:
+                s.fail(dict(case, message=hexb(msg), second=repr(again)[:300]),
+                       "decoding the same message a second time (after the first result was modified in place) gives other records",
+                       "roundtrip/decode-again")
         lines.append(codecio.model_line("em", enc, seq, recs))
         impls.append("ok " + hexb(msg))
         metas.append(case)
@@ -104,7 +119,9 @@ def run(ctx):
         seq = r.randrange(0, 65)
         case = {"records": codecio.records_wire(recs), "encoding": enc, "seq": seq}
         it.case(case, nontrivial=len(recs) > 1 and seq >= 8)
-        ok, frames = codecio.ok_or_err(lambda: list(codec.iter_encode(recs, enc, None, seq)))
+        size = r.choice([None, None, 20, 40, 100])
+        case["size"] = size
+        ok, frames = codecio.ok_or_err(lambda: list(codec.iter_encode(recs, enc, size, seq)))
         if not ok:
             it.fail(case, "iter_encode raised %s" % frames, "iter/raises")
             continue
@@ -113,10 +130,10 @@ def run(ctx):
                 it.fail(dict(case, frames=[hexb(x) for x in frames]),
                         "frame %d numbered %r, expected %d" % (i, f[1:2], (seq + i) % 8), "iter/numbering")
                 break
-            if codecio.ok_or_err(codec.decode_message, f, enc)[0] is not True:
+            if size is None and codecio.ok_or_err(codec.decode_message, f, enc)[0] is not True:
                 it.fail(dict(case, frame=hexb(f)), "a frame of iter_encode does not decode", "iter/decode")
                 break
-        lines.append(codecio.model_line("ienc", enc, None, seq, recs))
+        lines.append(codecio.model_line("ienc", enc, size, seq, recs))
         impls.append("ok " + " ".join(hexb(x) for x in frames))
         metas.append(case)
     model = common.drive(lines) if ctx.driver_ok else [None] * len(lines)
